@@ -2,3 +2,4 @@ pub mod engine;
 pub mod gen;
 pub mod model;
 pub mod props;
+pub mod fuzz;
